@@ -325,11 +325,11 @@ def c09run(name, tracks, kq, kt, **extra):
 CHECKS["C09"] = {
     "technique": "co-simulation: K symbolic writes into the real fMP4 Muxer, then the whole real Client runs as engine threads with its HTTP requests answered by the real Muxer.Handle; "
                  "lemma: checkSupport accepts every codec string codecparams.Marshal produces for the codecs Start accepts",
-    "bounds": {"quick": {"cosim": "fMP4 and MPEG-TS, H264 video (and AV1 video in fMP4, K=4), K=5 writes (IDR / non-IDR / IDR with changed PPS), symbolic DTS deltas and SegmentMinDuration, client attached after the writes",
+    "bounds": {"quick": {"cosim.ll": "Low-Latency, H264 at 30 fps, 6 writes before the client attaches + 4 while it follows through blocking preload hints, symbolic key-frame placement", "cosim": "fMP4 and MPEG-TS, H264 video (and AV1 video in fMP4, K=4), K=5 writes (IDR / non-IDR / IDR with changed PPS), symbolic DTS deltas and SegmentMinDuration, client attached after the writes",
                          "lemma.codecs": "H264, H265, AV1, VP9 (profile 0..3, depth 8..12), MPEG-4 audio (object type 1..42), Opus"},
                "thorough": {"cosim": "K=6; H265 and VP9 video K=5; video + audio rendition K=6; AbsoluteTime run with symbolic origin and tabled frame durations"}},
     "assumptions": MUX_STUBS + CHECKS["C10"]["assumptions"] + ["the two wire formats (playlist text, fMP4 bytes) are lossless transports (C14 + mediacommon)"],
-    "outside": ["the Low-Latency variant end to end; MPEG-TS end to end with an audio track (video-only MPEG-TS is co-simulated; the audio half is the client.ts.times run)", "client attached while the writer is running", "real HTTP and pacing"],
+    "outside": ["MPEG-TS end to end with an audio track (video-only MPEG-TS is co-simulated; the audio half is the client.ts.times run)", "Low-Latency end to end beyond video-only at a constant frame rate with cooperative scheduling (the client runs until it blocks after every write)", "real HTTP and pacing"],
     "runs": [
         {"name": "lemma.codecs", "files": C09F, "fn": "VerifH_C09_codecs", "workers": 8, "reach": ["marshalled"]},
         c09run("cosim.fmp4.video", 0, 5, 6),
@@ -432,6 +432,12 @@ CHECKS["C18"]["runs"] = CHECKS["C18"]["runs"] + [LLSEG9]
 CHECKS["C06"]["runs"] = CHECKS["C06"]["runs"] + [
     {"name": "conc.reload.segcount12", "files": C06F, "fn": "VerifH_C06_reload", "workers": 16, "params": {"SEGCOUNT": 12}, "params_quick": {"K": 3}, "params_thorough": {"K": 4},
      "reach": ["answered", "blocked", "end"], "budget_quick": 900, "budget_thorough": 7200, "replay_timeout": 120}]
+# Low-Latency end to end: the client follows the live muxer through blocking preload hints while the harness keeps writing
+CHECKS["C09"]["runs"] = CHECKS["C09"]["runs"] + [
+    {"name": "cosim.ll.video", "files": [G + "c09_llcosim.go"] + C09F, "fn": "VerifH_C09_llcosim", "workers": 16,
+     "params": {"VARIANT": 3, "TRACKS": 0, "VKINDS": 2, "CONCRETE": 3, "SYMSEGMIN": 0, "SEGMIN_MS": 100, "PARTMIN_MS": 50},
+     "params_quick": {"K": 10, "PRE": 6}, "params_thorough": {"K": 13, "PRE": 6}, "reach": ["attached", "client-done", "unit-compared"],
+     "budget_quick": 900, "budget_thorough": 7200, "replay_timeout": 120}]
 # C09 relies on the served TARGETDURATION being positive (the summary used in the co-simulation has the floor; this ties it to the real code)
 CHECKS["C09"]["runs"] = CHECKS["C09"]["runs"] + [{"name": "lemma.targetDuration.table", "files": C03L, "fn": "VerifH_C03_targetDuration", "workers": 1, "reach": ["end"]}]
 # the client half of C09 under a sliding live window (assertions carry C11's label)
